@@ -181,7 +181,9 @@ theorem C11_oracle_holds (evs : List Ev) (id : Nat) (x : Sub) (hx : (run init ev
   rw [← h.conserve, List.append_assoc]; exact List.prefix_append _ _
 
 /-- The facts regenerated from blockntfns/manager.go on this run that the model
-relies on: the channel capacity; registration goes through the handler goroutine
+relies on: the channel capacity; the forwarder goroutine is started before the
+subscription is handed to the handler (so the `wait forwarder` of `cancel()`
+covers it whenever the client can be cancelled); registration goes through the handler goroutine
 (`m.newSubscriptions <- sub`), the client map is only mutated by the two
 handler-side functions, which only `subscriptionHandler` calls; the backlog
 lookup (`NotificationsSinceHeight`) is made by the handler-side registration
@@ -190,17 +192,20 @@ of the handler goroutine; the backlog is pushed before the client is inserted
 into the map; fan-out reaches every client
 of the map; pushes and forwards are blocking (nothing dropped); the only send into a
 client's channel is the one in the forwarder goroutine that `NewSubscription`
-starts (followed through `go` into a named function or method); `cancel()` is
+starts (followed through `go` into a named function or method), and while it
+holds a notification it also listens to the client's and the manager's quit (so
+`cancel()`'s wait for it ends even if the client never reads); `cancel()` is
 once-guarded and is exactly stop-queue, close-quit, wait-forwarder,
 close-channel, the only close of that channel. -/
 theorem C11_source_facts :
     Gen.Subs.ntfnChanCap = 20 ∧ Gen.Subs.registersViaHandler = true ∧
+    Gen.Subs.forwarderBeforeRegistration = true ∧
     Gen.Subs.mapMutators = ["handleNewSubscription", "handleCancelSubscription"] ∧
     Gen.Subs.mapMutatorCallers = ["subscriptionHandler"] ∧
     Gen.Subs.backlogLookupCallers = ["handleNewSubscription"] ∧
     Gen.Subs.backlogBeforeInsert = true ∧ Gen.Subs.fanoutEveryClient = true ∧
     Gen.Subs.pushBlocking = true ∧ Gen.Subs.forwardBlocking = true ∧
-    Gen.Subs.ntfnChanSendSites = 1 ∧
+    Gen.Subs.ntfnChanSendSites = 1 ∧ Gen.Subs.forwardSendQuitCases = 2 ∧
     Gen.Subs.cancelOnce = true ∧
     Gen.Subs.cancelSeq = ["s.ntfnQueue.Stop()", "close(s.quit)", "s.wg.Wait()", "close(s.ntfnChan)"] ∧
     Gen.Subs.closeChanSites = 1 ∧ chanCap = Gen.Subs.ntfnChanCap := by decide
